@@ -142,7 +142,8 @@ def chk_x680(tier):
 
 def time_strings(tier):
     base = ['2017080112', '201708011201', '20170801120112']
-    fracs = ['', '.', '.0', '.5', '.50', '.05', '.120', '.102', '.099', '.999', '.000', '.1234', '.100200', ',5']
+    fracs = ['', '.', '.0', '.5', '.50', '.05', '.120', '.102', '.099', '.999', '.000', '.1234', '.100200', ',5',
+             '.5000', '.0000', '.1230', '.12300', '.500', '.9990']
     zones = ['Z', '', '+0200', '-0130', '+02']
     for b in base:
         for f in fracs:
